@@ -413,6 +413,10 @@ OptionContext::PrefixRange OptionContext::findImpl(const char* key, FindType t, 
 			k += char(CHAR_MAX);
 			up = index_.upper_bound(k);
 			k.erase(k.end()-1);
+			// the name and the alias names of one and the same option are not ambiguous
+			index_iterator x = it;
+			while (x != up && x->second == it->second) { ++x; }
+			if (x == up && it != up) { up = it; ++up; }
 		}
 	}
 	if (std::distance(it, up) != 1 && eMask) {
